@@ -2089,15 +2089,13 @@ def run_c20(ctx):
         longs = [16382, 16383, 16384, 16385, 20000, 33000] if ctx.tier == "quick" else \
                 [16380 + i for i in range(10)] + [20000, 32766, 32767, 32768, 32769, 50000, 70000]
         for k, n in enumerate(longs):
-            kind = k % 4
+            kind = k % 3       # (no long digit runs: the model's exact integer arithmetic is quadratic on them)
             if kind == 0:
                 texts.append(b"pre = 1;\ns = \"" + b"a" * n + b"\";\npost = 2;\n")
             elif kind == 1:
                 texts.append(b"pre = 1;\n" + b"n" * n + b" = 1;\npost = 2;\n")
-            elif kind == 2:
-                texts.append(b"pre = 1;\nw =" + b" " * n + b"3;\npost = 2;\n")
             else:
-                texts.append(b"pre = 1;\nd = [ 1, " + b"7" * n + b" ];\npost = 2;\n")
+                texts.append(b"pre = 1;\nw =" + b" " * n + b"3;\npost = 2;\n")
         cases = []
         for t in texts:
             body = ["init", "fs put %s %s" % (hx(b"c20inc.cfg"), hx(b"inc = 7;\n")), "fs put %s %s" % (hx(b"c20.cfg"), hx(t))]
@@ -2111,7 +2109,7 @@ def run_c20(ctx):
                 "three comment styles, adjacent strings, aggregates, punctuation) at every offset in a +-12 (quick) / +-64 "
                 "(thorough) byte window around the 8/16/24/32 KiB positions, valid and with a late syntax error, plus an "
                 "@include followed by more than one read block of the including text, and single tokens (string, name, blank "
-                "run, digit run) of 16382..33000 (quick) / ..70000 (thorough) bytes that force the scanner's buffer to grow; "
+                "run) of 16382..33000 (quick) / ..70000 (thorough) bytes that force the scanner's buffer to grow; "
                 "each read through config_read_string, "
                 "config_read on fmemopen, on cookie streams delivering 1,2,4095,...,8193-byte pieces, and config_read_file; "
                 "return value, settings, source lines, error text and line compared pairwise and with the model")
